@@ -48,7 +48,7 @@ fn gen_setup() -> Setup {
     let mut chaos = Chaos::default();
     let ns = draw(4);
     for _ in 0..ns.saturating_sub(1) {
-        chaos.srv_shutdown.push((draw(60), draw_usize(4)));
+        chaos.srv_shutdown.push((draw(60), *pick(&[0usize, 1, 2, 3, 0, 1, 2, 3, usize::MAX, 1 << 60])));
     }
     if chance(1, 4) {
         chaos.cli_shutdown = Some(draw(60));
@@ -129,7 +129,7 @@ impl Check for C14 {
     fn meta(&self) -> Meta {
         Meta {
             level: "exploration",
-            rule: "generated programs: 1-4 exchanges in both roles (send_request/send_response, send_data with buffers of any size incl. empty and multi-chunk, send_trailers, finish, streams abandoned after a drawn number of pieces, whole or split streams), server shutdown(n) calls (0-2, n in 0..3) and a client shutdown at drawn moments, builder options drawn (field-section limit, datagram, WebTransport, extended CONNECT, session limit, grease) x drawn write acceptance (down to 1 byte, header-splitting, copy_to_bytes), pends, stream credit, task order; every byte log of every stream either endpoint wrote is parsed by the reference RFC 9114 parser; non-trivial = >= 1 request stream carried a complete HEADERS frame and >= 1 partial write or write pend happened; distinct = distinct schedule signatures",
+            rule: "generated programs: 1-4 exchanges in both roles (send_request/send_response, send_data with buffers of any size incl. empty and multi-chunk, send_trailers, finish, streams abandoned after a drawn number of pieces, whole or split streams), server shutdown(n) calls (0-2, n in 0..3 or, one call in five, 2^60 / usize::MAX: 'let everything in flight through') and a client shutdown at drawn moments, builder options drawn (field-section limit, datagram, WebTransport, extended CONNECT, session limit, grease) x drawn write acceptance (down to 1 byte, header-splitting, copy_to_bytes), pends, stream credit, task order; every byte log of every stream either endpoint wrote is parsed by the reference RFC 9114 parser; non-trivial = >= 1 request stream carried a complete HEADERS frame and >= 1 partial write or write pend happened; distinct = distinct schedule signatures",
             real: &["h3 client and server (all of h3/src)", "http, bytes, tokio::sync::mpsc"],
             stub: &["QUIC transport (SimQuic, both ends)", "executor (simexec)", "applications (generated call programs)"],
             assumptions: &["futures are awaited to completion (a cancelled send is outside the documented pattern), except the server's accept() which is cancelled for shutdown(n) as in the documented select pattern", "push is not implemented by h3: a push stream or PUSH_PROMISE on the wire is reported"],
